@@ -190,10 +190,25 @@ func (s *Set[T]) unsafeIterator() *fun.Iterator[T] {
 // the Set's lock when called.
 func (s *Set[T]) Producer() (out fun.Producer[T]) {
 	defer s.with(s.lock())
-	defer func() { mu := s.mtx.Get(); ft.WhenDo(mu != nil, func() fun.Producer[T] { return out.WithLock(mu) }) }()
+	mu := s.mtx.Get()
 
 	if s.list != nil {
-		return s.list.Producer()
+		out = s.list.Producer()
+		if mu != nil {
+			out = out.WithLock(mu)
+		}
+		return out
+	}
+
+	if mu != nil {
+		// the map's producer iterates the map from a background
+		// goroutine, outside of any lock: a synchronized set
+		// produces a snapshot of its members instead.
+		keys := make([]T, 0, len(s.hash))
+		for k := range s.hash {
+			keys = append(keys, k)
+		}
+		return fun.SliceIterator(keys).Producer()
 	}
 
 	return s.hash.ProducerKeys()
